@@ -314,6 +314,20 @@ def build_recipes():
         add('mef.clustering_gmm', lambda c, sc=scale: (mef.clustering_gmm, [c.beads()[:, ['FL1-H', 'FL2-H']], 3], dict(scale=sc)))
         add('mef.clustering_gmm', lambda c, sc=scale: (mef.clustering_gmm, [np.asarray(c.beads()[:, ['FL1-H']], dtype=float), 3], dict(scale=sc)))
 
+        def rec_cl0(c, sc=scale, as_sample=False):
+            # double-precision events with some non-positive ones (what a log scale has to saturate -- in a copy)
+            if as_sample:
+                d_ = tr.to_rfi(c.beads()[:, ['FL1-H', 'FL2-H']])
+                d_[::50, 0] = 0.0
+                d_[1::70, 1] = -3.0
+                return (mef.clustering_gmm, [d_, 3], dict(scale=sc))
+            a_ = np.asarray(c.beads()[:, ['FL1-H']], dtype=np.float64).copy()
+            a_[::50] = 0.0
+            a_[1::70] = -3.0
+            return (mef.clustering_gmm, [_own(c, a_), 3], dict(scale=sc))
+        add('mef.clustering_gmm', rec_cl0)
+        add('mef.clustering_gmm', lambda c, sc=scale: rec_cl0(c, sc, True))
+
         def rec_sel(c, sc=scale, arr=False):
             b = c.beads()
             pops = [b[np.arange(b.shape[0]) % 3 == i][:, 'FL1-H'] for i in range(3)]
@@ -379,6 +393,9 @@ def build_recipes():
                 return (fplot.hist1d, [d_], dict(channel='FL1-H', xscale=sc, bins=16, normed_height=normed,
                                                  weights=_own(c, np.full(d_.shape[0], 2.0))))
             add('plot.hist1d', rec_hw)
+            add('plot.hist1d', lambda c, sc=scale, k=kind: (lz(c, sc, k), (fplot.hist1d, [_own(c, [c.sample(k), c.sample(k), c.sample(k)])],
+                                                                             dict(channel='FL1-H', xscale=sc, bins=16, legend=True,
+                                                                                  legend_labels=_own(c, ['control', 'induced']))))[1])
             add('plot.hist1d', lambda c, sc=scale, k=kind: rec_hw(c, sc, k, True))
             add('plot.density2d', lambda c, sc=scale, k=kind: (lz(c, sc, k), (fplot.density2d, [c.sample(k)],
                                                                                 dict(channels=_own(c, ['FSC-H', 'SSC-H']), bins=_own(c, [8, None]),
